@@ -94,7 +94,7 @@ def main():
     directed, per_kind = [], {}
     for d in sorted(predicted, key=lambda d: (d["fn"], d["v"], len(d["x"]) + len(d["y"]), d["x"], d["y"])):
         e = by_key.get((d["fn"], tuple(d["x"]), tuple(d["y"])))
-        if e is not None and per_kind.get((d["fn"], d["v"]), 0) < 3:
+        if e is not None and per_kind.get((d["fn"], d["v"]), 0) < 3 and not any(e is o for o in directed):
             per_kind[(d["fn"], d["v"])] = per_kind.get((d["fn"], d["v"]), 0) + 1
             directed.append(e)
     chosen = set(id(e) for e in directed)
